@@ -127,6 +127,8 @@ CollStep(kind, st, o) ==
                           st.doc /\ st.cap >= o.i), <<>>)      \* capacity after this reallocation: undocumented
       [] o.op = "get" ->                                     \* explicit query with an arbitrary index
             OkS(st, <<IF o.i >= n THEN INone ELSE ISome(es[o.i + 1])>>)
+      [] o.op = "iter" ->                                    \* every element through iter(); == with a clone, with a longer clone
+            OkS(st, [x \in 1..n |-> IElem(es[x])] \o <<IBool(TRUE), IBool(FALSE)>>)
       [] o.op = "clone" ->                                   \* x = x.clone(): same content, fresh buffer
             OkS(Coll(es, n, FALSE), <<>>)
       \* ---- Bytes only
@@ -283,6 +285,12 @@ IsSqrt(x, r, w) ==
         xx == Resize(x, W2)
     IN Len(r) = w /\ Le(lo, xx) /\ Lt(xx, hi)
 
+\* q, r are quotient and remainder of a by b # 0, as a relation: a = q * b + r and r < b
+IsDivMod(a, b, q, r, w) ==
+    /\ Lt(r, b)
+    /\ LET p == MulW(q, b, w) IN
+          ~p.ovf /\ LET s == Add(p.v, r) IN ~s.ovf /\ s.v = a
+
 \* r = floor(log_b(x)) for b >= 2, x >= 1, as a relation: b^r <= x < b^(r+1)
 IsLog(x, b, r, w) ==
     /\ Len(r) = w /\ IsSmall(r) /\ ToNat(r) <= 8 * w
@@ -305,13 +313,15 @@ Log2Nat(x) == 8 * (SigLen(x) - 1) + TopBit(x[SigLen(x)], 7)
 (*          on-unsafe-math disabled                                        *)
 (* NumExpect(c) = [out, items]: the test returns / reverts after logging   *)
 (* items; an item is [k |-> "bytes", b] (exact log), [k |-> "sqrt", ...],  *)
-(* [k |-> "log", ...] (relational), [k |-> "any", n] (some n-byte value:   *)
-(* documented not to revert, value undocumented).                          *)
+(* [k |-> "log", ...], [k |-> "divmod", ...] (relational: the logged value *)
+(* must satisfy the defining relation), [k |-> "any", n] (some n-byte      *)
+(* value: documented not to revert, value undocumented).                   *)
 (***************************************************************************)
 XBytes(b)        == [k |-> "bytes", b |-> b]
 XVal(v)          == XBytes(ToBE(v))                         \* an integer result of the type
 XSqrt(x, w)      == [k |-> "sqrt", x |-> x, w |-> w]
 XLog(x, b, w)    == [k |-> "log", x |-> x, base |-> b, w |-> w]
+XDivMod(a, b, w) == [k |-> "divmod", a |-> a, b |-> b, w |-> w]
 XAny(n)          == [k |-> "any", n |-> n]
 Returns(items)   == [out |-> "return", items |-> items]
 Reverts(items)   == [out |-> "revert", items |-> items]
@@ -319,6 +329,9 @@ Reverts(items)   == [out |-> "revert", items |-> items]
 NumItemMatches(it, bytes) ==
     CASE it.k = "bytes" -> bytes = it.b
       [] it.k = "any"   -> Len(bytes) = it.n
+      [] it.k = "divmod" -> Len(bytes) = 2 * it.w
+                            /\ IsDivMod(it.a, it.b, Tup(FromBE(SubSeq(bytes, 1, it.w))),
+                                        Tup(FromBE(SubSeq(bytes, it.w + 1, 2 * it.w))), it.w)
       [] it.k = "sqrt"  -> Len(bytes) = it.w /\ IsSqrt(it.x, FromBE(bytes), it.w)
       [] it.k = "log"   -> Len(bytes) = it.w /\ IsLog(it.x, it.base, FromBE(bytes), it.w)
 
@@ -339,9 +352,9 @@ NumExpect(c) ==
             \* default: "Reverts on overflow / underflow"; W: wraps (flags.sw, wrapping_* docs, u128 tests)
             LET r == Arith3(c.op, a, b, w) IN
             IF r.ovf /\ c.mode # "W" THEN Reverts(<<>>) ELSE Returns(<<XVal(r.v)>>)
-      [] c.op \in {"div", "mod"} ->
-            IF IsZero(b) THEN (IF c.mode = "U" THEN Returns(<<XAny(w)>>) ELSE Reverts(<<>>))
-            ELSE Returns(<<XVal(IF c.op = "div" THEN DivModT(a, b).q ELSE DivModT(a, b).r)>>)
+      [] c.op = "divmod" ->                  \* logs the pair (a / b, a % b): "Reverts if divisor is zero"
+            IF IsZero(b) THEN (IF c.mode = "U" THEN Returns(<<XAny(2 * w)>>) ELSE Reverts(<<>>))
+            ELSE Returns(<<XDivMod(a, b, w)>>)
       [] c.op \in {"wrapping_add", "wrapping_sub", "wrapping_mul"} ->
             \* modular result; afterwards the flags are as before: the same plain operation then behaves as in mode D
             LET plain == CASE c.op = "wrapping_add" -> "add" [] c.op = "wrapping_sub" -> "sub" [] c.op = "wrapping_mul" -> "mul"
@@ -387,6 +400,6 @@ Specified(c) ==
             \* both upper words non-zero: std asserts on the *unsafe-math* flag; undocumented either way
             (Fits(FromBE(c.a), 8) \/ Fits(FromBE(c.b), 8))
     /\ (c.op = "sqrt" /\ c.ty = "u128") => ~IsZero(FromBE(c.a))       \* U128::sqrt(0): std reverts, undocumented
-    /\ (c.mode = "U") => c.op \in {"div", "mod", "log", "log2"}
+    /\ (c.mode = "U") => c.op \in {"divmod", "log", "log2"}
     /\ (c.mode = "W") => c.op \in {"add", "sub", "mul", "pow", "log", "log2", "sqrt"}
 =============================================================================
